@@ -19,6 +19,7 @@
 struct sk_kernel *K;
 size_t sk_arena_size;
 int (*sk_env_pull)(void);
+void (*sk_yield_hook)(int kind); /* C20: called at the entry of every kernel-relevant call made by the parent process */
 void (*sk_on_hang)(const char *what);
 int sk_cur = 0;  /* process index this REAL process is executing as (0 = parent) */
 static int arena_used;
@@ -102,6 +103,9 @@ unsigned char sk_pattern(int tag, long off)
 /* ---- fault injection ---- */
 static int fault(int kind)
 {
+  if (K && sk_cur == 0 && sk_yield_hook && K->in_api &&
+      (kind == 1 || kind == 2 || kind == 3 || kind == 4 || kind == 5 || kind == 7 || kind == 8 || kind == 9 || kind == 10 || kind == 11))
+    sk_yield_hook(kind);
   if (!K || !K->in_api) return 0;
   int side = SIDE;
   int n = ++K->callno[side];
@@ -328,8 +332,10 @@ int sk_revents(int pi, int fd, int events)
       if (o->len > 0) r |= POLLIN;
       if (o->writers == 0) r |= POLLHUP;
     } else {
-      if (o->readers == 0) r |= POLLERR | POLLOUT;
-      else if (o->len < o->cap) r |= POLLOUT;
+      /* as Linux: POLLERR when no reader is left, POLLOUT only while there is room (a full pipe
+         whose reader has gone reports POLLERR alone) */
+      if (o->readers == 0) r |= POLLERR;
+      if (o->len < o->cap) r |= POLLOUT;
     }
   } else {
     r |= POLLIN | POLLOUT;
